@@ -267,4 +267,52 @@ theorem c12_model_checks {env : MEnv} {orig : List Step} (hy : Hyps env orig) (s
       cases e <;> simp [observeErr, obsErr, ObsRes.isErr]
     · subst hi; simp [h1, h2, h3]
 
+/-! ### non-vacuity: concrete inputs meet every hypothesis; the facts obligation is not idle -/
+
+private def exEnv : MEnv := genEnv [] []
+
+private def exHeap : Heap :=
+  [ .dict "dict" [(.str "a", .ref 1), (.str "k", .int 7)],   -- 0: {'a': [..], 'k': 7}
+    .list "list" [.int 10, .ref 2, .int 30],                 -- 1: [10, obj, 30]
+    .inst "Obj" [("b", .none)] ]                             -- 2: obj.b = None
+
+example : Hyps exEnv [("P", .str "a"), ("P", .str "0")] := by decide
+example : Hyps exEnv [("[", .str "a"), ("[", .int 1), (".", .str "b")] := by decide
+
+/-- success: `delete(t, 'a.0')` removes the first list item, the later ones shift -/
+example : (delete exEnv false .none false exHeap (.ref 0) [("P", .str "a"), ("P", .str "0")]).2 = .ok (.ref 0) ∧
+    (delete exEnv false .none false exHeap (.ref 0) [("P", .str "a"), ("P", .str "0")]).1.heap =
+      exHeap.set 1 (.list "list" [.ref 2, .int 30]) := by decide
+/-- missing final key through `T['zz']`: PathDeleteError(KeyError), heap unchanged (the repaired defect) -/
+example : refDelete exEnv exHeap (.ref 0) [("[", .str "zz")] false = .missingFinal (exc "KeyError") ∧
+    (delete exEnv false .none false exHeap (.ref 0) [("[", .str "zz")]).2 =
+      .error (.pdelete (exc "KeyError") (.str "zz")) := by decide
+/-- … ignored under `ignore_missing=True` -/
+example : (delete exEnv false .none true exHeap (.ref 0) [("[", .str "zz")]).2 = .ok (.ref 0) ∧
+    (delete exEnv false .none true exHeap (.ref 0) [("[", .str "zz")]).1.heap = exHeap := by decide
+/-- missing parent -/
+example : refDelete exEnv exHeap (.ref 0) [("P", .str "q"), ("P", .str "0")] false =
+    .missingParent 0 (exc "KeyError") := by decide
+/-- a fault: `del` on a scalar through `T[...]` is a TypeError, raised as it is -/
+example : refDelete exEnv exHeap (.ref 0) [("P", .str "k"), ("[", .int 0)] false = .fault ∧
+    (delete exEnv false .none false exHeap (.ref 0) [("P", .str "k"), ("[", .int 0)]).2 =
+      .error (.raised (exc "TypeError")) := by decide
+
+/-- the `_del_one` table as it was before commit 0c6b34e: `[` catches IndexError only -/
+private def oldEnv : MEnv :=
+  { exEnv with delBr := [("[", "delitem", ["IndexError"], "PathDeleteError"),
+      (".", "delattr", ["AttributeError"], "PathDeleteError"),
+      ("P", "handler", ["Exception"], "PathDeleteError")] }
+
+/-- **Counter-example without the facts obligation** (the defect repaired by 0c6b34e): with the
+    old branch table `WF` is false, and `delete({'a': …}, T['zz'])` leaks the KeyError instead of
+    raising PathDeleteError — `c12_missing_final` really hinges on the extracted `except` clause. -/
+theorem c12_old_table_counterexample :
+    C12.WF oldEnv = false ∧
+    refDelete oldEnv exHeap (.ref 0) [("[", .str "zz")] false = .missingFinal (exc "KeyError") ∧
+    (delete oldEnv false .none false exHeap (.ref 0) [("[", .str "zz")]).2 =
+      .error (.raised (exc "KeyError")) ∧
+    (delete oldEnv false .none true exHeap (.ref 0) [("[", .str "zz")]).2 =
+      .error (.raised (exc "KeyError")) := by decide
+
 end Glom.Props.C12
